@@ -1,5 +1,7 @@
 package mxj
 
+import "io"
+
 func init() {
 	vHarnesses["H_C17_pure_query"] = H_C17_pure_query
 	vHarnesses["H_C17_pure_encode"] = H_C17_pure_encode
@@ -179,12 +181,12 @@ func H_C17_footprint() {
 			_ = Map(m).LeafNodes()
 			_, _ = Map(m).Copy()
 		case 9: // reader forms over a reader that is not an io.ByteReader
-			_, _ = NewMapXmlReader(vNondetSched([]byte("<r><" + k + ">x</" + k + "></r>")))
+			_, _ = NewMapXmlReader(vSlow([]byte("<r><" + k + ">x</" + k + "></r>")))
 		case 10:
-			_, _ = NewMapXmlSeqReader(vNondetSched([]byte("<r " + k + "=\"1\"><b/></r>")))
+			_, _ = NewMapXmlSeqReader(vSlow([]byte("<r " + k + "=\"1\"><b/></r>")))
 		case 11:
-			_, _, _ = NewMapXmlReaderRaw(vNondetSched([]byte("<r><" + k + "/></r>")))
-			_, _ = NewMapJsonReader(vNondetSched([]byte("{\"" + k + "\":1}")))
+			_, _, _ = NewMapXmlReaderRaw(vSlow([]byte("<r><" + k + "/></r>")))
+			_, _ = NewMapJsonReader(vSlow([]byte("{\"" + k + "\":1}")))
 		default:
 			_, _ = ms.XmlIndent("", " ")
 		}
@@ -193,3 +195,25 @@ func H_C17_footprint() {
 	vResetDecOpts()
 	vCover("footprint")
 }
+
+// vSlowReader delivers one byte per Read and is not an io.ByteReader (so the package wraps
+// it); it is created inside the concurrent section and reads no tape, which keeps the
+// native two-goroutine replay free of shared harness state
+type vSlowReader struct {
+	b []byte
+	i int
+}
+
+func (r *vSlowReader) Read(p []byte) (int, error) {
+	if r.i >= len(r.b) {
+		return 0, io.EOF
+	}
+	if len(p) == 0 {
+		return 0, nil
+	}
+	p[0] = r.b[r.i]
+	r.i++
+	return 1, nil
+}
+
+func vSlow(b []byte) io.Reader { return &vSlowReader{b: b} }
